@@ -415,10 +415,11 @@ struct Obj {
 	std::map<int,std::pair<uint32_t,uint64_t>> interest;   // epoll: fd -> (events, data)
 	int64_t sndtimeo_us=0, rcvtimeo_us=0;
 	std::shared_ptr<FsFile> file; std::string path; uint64_t pos=0; int oflags=0;
-	int lock_node=-1; bool accepted=false;
+	int lock_node=-1; bool accepted=false; int conn_node=-1;   // conn_node: node of the thread that connected this (client side) stream
 };
 static std::vector<std::shared_ptr<Obj>> fdtab;
 static std::map<std::string,int> listeners;
+static std::set<std::pair<int,std::string>> cut_links;
 static std::shared_ptr<Obj> get(int fd){ if(fd<0||(size_t)fd>=fdtab.size()) return nullptr; return fdtab[fd]; }
 static int newfd(std::shared_ptr<Obj> o){
 	int fd=__real_open("/dev/null",O_RDONLY);
@@ -426,8 +427,14 @@ static int newfd(std::shared_ptr<Obj> o){
 	if((size_t)fd>=fdtab.size()) fdtab.resize(fd+64);
 	fdtab[fd]=o; return fd;
 }
-static void fd_reset(){ for(size_t i=0;i<fdtab.size();i++) if(fdtab[i]){ __real_close((int)i); fdtab[i].reset(); } listeners.clear(); }
+static void fd_reset(){ for(size_t i=0;i<fdtab.size();i++) if(fdtab[i]){ __real_close((int)i); fdtab[i].reset(); } listeners.clear(); cut_links.clear(); }
 int open_sim_fds(){ int n=0; for(auto&o:fdtab) if(o) n++; return n; }
+// partition fault: the link between the threads of one node and one listening address. Cutting it resets the established connections of that
+// node to that address and refuses new ones until it is healed; the listener and everybody else are not affected.
+void set_link_cut(int node,const std::string &addr,bool cut){
+	if(!cut){ cut_links.erase({node,addr}); tracef("fault: link node %d - %s healed",node,addr.c_str()); return; }
+	cut_links.insert({node,addr}); trace_mix(0x9A27+node); S.partitions++; tracef("fault: link node %d - %s cut",node,addr.c_str());
+	for(auto&o:fdtab) if(o&&o->kind==Obj::STREAM&&!o->accepted&&o->conn_node==node&&o->addr==addr&&o->reset&&!*o->reset) *o->reset=true; }
 bool reset_accepted_stream(uint64_t pick){ std::vector<Obj*> v; for(auto&o:fdtab) if(o&&o->accepted&&o->kind==Obj::STREAM&&!*o->reset) v.push_back(o.get()); if(v.empty()) return false; Obj*o=v[pick%v.size()]; *o->reset=true; trace_mix(0xEE5E7); tracef("fault: connection reset injected"); return true; }
 int open_accepted_fds(){ int n=0; for(auto&o:fdtab) if(o&&o->accepted) n++; return n; }
 std::string describe_fds(){
@@ -495,6 +502,8 @@ extern "C" int __wrap_accept(int fd,struct sockaddr*sa,socklen_t*len){ IGN; SIMF
 extern "C" int __wrap_connect(int fd,const struct sockaddr*sa,socklen_t len){ IGN; SIMFD(o,fd); if(!o) return __real_connect(fd,sa,len);
 	yield(); std::string a=addr_str(sa); auto it=listeners.find(a);
 	if(it==listeners.end()){ tracef("connect %s refused",a.c_str()); errno=ECONNREFUSED; return -1; }
+	if(cut_links.count({self?self->node:0,a})){ tracef("connect %s: link is cut",a.c_str()); S.partition_refused++; errno=ECONNREFUSED; return -1; }
+	o->conn_node=self?self->node:0;
 	auto l=get(it->second); auto srv=std::make_shared<Obj>();
 	size_t c1=P.default_chan_cap,c2=P.default_chan_cap;
 	bool nb=o->nonblock; int fam=o->family;
